@@ -359,4 +359,47 @@ def cloneTable (fixed : Bool) (failAt : Nat) (src : List SrcEntry) (s : St := {}
       else if r.corrupt then (r, some obj, s2)                     -- never gets as far as `free(to_free)`
       else (r, none, free obj s2)
 
+-- ---------------------------------------------------------------------------------------------------------------
+-- cif_value_deserialize of the blob of a TABLE value (cif_table_deserialize, as repaired by /repo 7285a53 and 2b403f6)
+-- whose entries were made by cif_map_set_item (key and key_orig are two strings in the blob) and whose values are
+-- `DShape`s; `dest` exists before the call.
+
+/-- one serialised entry -/
+structure BlobEntry where
+  keyStr : Str
+  shape : DShape
+deriving Repr
+
+/-- the `case 0` iterations of cif_table_deserialize; `tmp` = the temporary table built so far.  Failure handlers, in the
+    order they fall through: `hash` (HASH_ADD_UNDO: release what HASH_MAKE_TABLE obtained / unlink; cif_value_free of the
+    entry), `value` (free key_orig), `key_orig` (free key), `key` (cif_value_clean(&temp)). -/
+def deserEntries (failAt : Nat) : List BlobEntry → MapSt → St → Option MapSt × St
+  | [], tmp, s => (some tmp, s)
+  | be :: rest, tmp, s =>
+    match alloc failAt s with                                     -- DESERIALIZE_USTRING(key)
+    | (none, s1) => (none, mapClean tmp.ut tmp.entries s1)
+    | (some k, s1) =>
+      match alloc failAt s1 with                                  -- DESERIALIZE_USTRING(key_orig)
+      | (none, s2) => (none, mapClean tmp.ut tmp.entries (free k s2))
+      | (some o, s2) =>
+        match alloc failAt s2 with                                -- DESERIALIZE(struct entry_s …): malloc(sizeof(struct entry_s))
+        | (none, s3) => (none, mapClean tmp.ut tmp.entries (free k (free o s3)))
+        | (some ent, s3) =>
+          match deserInto failAt ent be.shape s3 with             -- … and its value; on failure vfail releases the entry
+          | (none, s4) => (none, mapClean tmp.ut tmp.entries (free k (free o s4)))
+          | (some v, s4) =>
+            let e : MEntry := { key := k, orig := o, keyStr := be.keyStr, origStr := be.keyStr,
+                                hashv := hashJen (keyBytes be.keyStr), val := v }
+            match hashAdd failAt tmp e s4 with
+            | (.ok tmp', s5) => deserEntries failAt rest tmp' s5
+            | (.fatal t, s5) =>
+              (none, mapClean tmp.ut tmp.entries (free k (free o (freeOwned v (freeAll t s5)))))
+
+/-- `cif_value_deserialize` of a table blob onto the existing object `dest`.  Returns (result code, the table `dest` now
+    holds, final state). -/
+def deserTable (failAt : Nat) (entries : List BlobEntry) (s : St := {}) : Nat × Option MapSt × St :=
+  match deserEntries failAt entries {} s with
+  | (some m, s') => (OK, some m, s')
+  | (none, s') => (MEMORY_ERROR, none, s')
+
 end CifModel.Model.Ladder
